@@ -413,12 +413,17 @@ func c02ActiveFlush(c *core.Ctx, res *core.Result) {
 		n++
 		return kv.Op{Kind: "put", Key: key(i), Val: []byte(fmt.Sprintf("c%d/%d|", c.Idx, n))}
 	}
+	errored := map[int]string{}
 	do := func(op kv.Op) {
 		units = append(units, op)
+		var err error
 		if op.Kind == "put" {
-			eng.Put(op.Key, op.Val)
+			err = eng.Put(op.Key, op.Val)
 		} else {
-			eng.Delete(op.Key)
+			err = eng.Delete(op.Key)
+		}
+		if err != nil {
+			errored[len(units)-1] = err.Error()
 		}
 	}
 	for i := 0; i < nk; i++ {
@@ -485,7 +490,7 @@ func c02ActiveFlush(c *core.Ctx, res *core.Result) {
 		res.Violate("recovered_state_unreadable", serr.Error(), feat)
 		return
 	}
-	if m, _, closest, diff := kv.MatchPrefix(kv.NewModel(), units, nil, st, keys, 0, len(units)); len(m) == 0 {
+	if m, _, closest, diff := kv.MatchPrefix(kv.NewModel(), units, errored, st, keys, 0, len(units)); len(m) == 0 {
 		var sb strings.Builder
 		for u := max(0, closest-2); u < len(units); u++ {
 			fmt.Fprintf(&sb, "unit %d: %s\n", u, units[u].String())
